@@ -2,4 +2,6 @@ import Solvor.Flow.SumLemmas
 import Solvor.Flow.CutLemmas
 import Solvor.Flow.EKLemmas
 import Solvor.Flow.EKArcs
+import Solvor.Flow.SSPLemmas
+import Solvor.Flow.AssignLemmas
 /-! Flow: helper lemmas (collected from the files of this directory). -/
